@@ -33,6 +33,13 @@ type c03Case struct {
 	RM  int     `json:"rm"`
 	Big bool    `json:"big,omitempty"` // payloads padded to 3000 bytes (retransmissions do not fit one write)
 	Ops []c03Op `json:"ops"`
+	// aggregate kinds (corpus only; seconds each):
+	// Wrap > 0: that many QoS 1 messages on ONE connection (Receive Maximum RM), every delivery acknowledged at once
+	//           except the one that carries packet identifier 65535, which is never acknowledged: the identifiers
+	//           go twice around the 16-bit space and meet the stuck one
+	Wrap int `json:"wrap,omitempty"`
+	// Bulk > 0: that many QoS 1 messages for the OFFLINE durable session, then a reconnect that acknowledges everything
+	Bulk int `json:"bulk,omitempty"`
 }
 
 type c03Wire struct {
@@ -50,6 +57,8 @@ type c03Step struct {
 
 type c03Obs struct {
 	Steps []c03Step `json:"steps"`
+	Items [][2]int  `json:"items,omitempty"` // wrap: [a,b] = run a..b, [id,-1] = id issued and never acknowledged
+	Got   int       `json:"got,omitempty"`   // bulk: distinct messages received after the reconnect
 	Err   string    `json:"err,omitempty"`
 }
 
@@ -159,8 +168,159 @@ type c03Out struct {
 	kind mqttp.Type // the acknowledgement the client owes
 }
 
+// long streams: no per-message barrier, the subscriber's log is compressed
+func (p *c03Prop) runLong(c *c03Case) *c03Obs {
+	obs := &c03Obs{Steps: []c03Step{}}
+	b, err := NewBroker(BrokerOpts{})
+	if err != nil {
+		obs.Err = err.Error()
+		return obs
+	}
+	defer b.Drop()
+	ver := mqttp.ProtocolV311
+	if c.V5 {
+		ver = mqttp.ProtocolV50
+	}
+	forever := uint32(0xFFFFFFFF)
+	connectS := func() (*Client, error) {
+		cl := b.Dial()
+		o := ConnectOpts{ID: "S", Ver: ver, Clean: false}
+		if c.V5 {
+			o.Expiry = &forever
+			o.RecvMax = uint16(c.RM)
+		}
+		_, err := cl.Connect(o)
+		return cl, err
+	}
+	sc, err := connectS()
+	if err != nil {
+		obs.Err = "S: " + err.Error()
+		return obs
+	}
+	if err := sc.Send(mkSubscribe(ver, 1, []string{"t"}, []byte{1})); err != nil {
+		obs.Err = "S: subscribe"
+		return obs
+	}
+	if pk, err := sc.Recv(5 * time.Second); err != nil || pk.Type() != mqttp.SUBACK {
+		obs.Err = "S: no suback"
+		return obs
+	}
+	pc := b.Dial()
+	if _, err := pc.Connect(ConnectOpts{ID: "P", Ver: mqttp.ProtocolV311, Clean: true}); err != nil {
+		obs.Err = "P: " + err.Error()
+		return obs
+	}
+	pa := pc.Auto(false)
+	n := c.Wrap + c.Bulk
+	publish := func() {
+		for k := 0; k < n; k++ {
+			pl := []byte{byte(k >> 24), byte(k >> 16), byte(k >> 8), byte(k)}
+			for pa.SendL(mkPublish(mqttp.ProtocolV311, "t", pl, 1, false, uint16(k%65535+1))) != nil {
+				time.Sleep(time.Millisecond)
+			}
+		}
+	}
+	publisherDone := func() bool {
+		return pa.WaitFor(60*time.Second, func() bool {
+			k := 0
+			for _, o := range pa.Others {
+				if o.Type() == mqttp.PUBACK {
+					k++
+				}
+			}
+			return k >= n
+		})
+	}
+	// the subscriber's loop: acknowledge at once (wrap: except the first delivery with identifier 65535)
+	consume := func(cl *Client, want int, stuckID int) (ids []int, distinct int) {
+		seen := map[uint32]bool{}
+		stuck := false
+		for distinct < want {
+			pk, err := cl.Recv(5 * time.Second)
+			if err != nil {
+				return
+			}
+			m, ok := pk.(*mqttp.Publish)
+			if !ok {
+				continue
+			}
+			id, _ := m.ID()
+			ids = append(ids, int(id))
+			if pl := m.Payload(); len(pl) == 4 {
+				k := uint32(pl[0])<<24 | uint32(pl[1])<<16 | uint32(pl[2])<<8 | uint32(pl[3])
+				if !seen[k] {
+					seen[k] = true
+					distinct++
+				}
+			}
+			if int(id) == stuckID && !stuck {
+				stuck = true
+				continue
+			}
+			if cl.Send(mkAck(ver, mqttp.PUBACK, uint16(id))) != nil {
+				return
+			}
+		}
+		return
+	}
+	if c.Wrap > 0 {
+		go publish()
+		ids, got := consume(sc, n, 65535)
+		if got < n {
+			obs.Err = fmt.Sprintf("wrap: only %d of %d messages arrived (last identifiers %v)", got, n, tailInts(ids, 6))
+		}
+		// compress: runs of consecutive identifiers; the stuck one on its own
+		stuckSeen := false
+		for i := 0; i < len(ids); {
+			if ids[i] == 65535 && !stuckSeen {
+				stuckSeen = true
+				obs.Items = append(obs.Items, [2]int{65535, -1})
+				i++
+				continue
+			}
+			j := i
+			for j+1 < len(ids) && ids[j+1] == ids[j]+1 && !(ids[j+1] == 65535 && !stuckSeen) {
+				j++
+			}
+			obs.Items = append(obs.Items, [2]int{ids[i], ids[j]})
+			i = j + 1
+		}
+		return obs
+	}
+	// bulk: everything is routed while S is away
+	d0 := b.Met.Disconnected()
+	sc.Close()
+	deadline := time.Now().Add(5 * time.Second)
+	for time.Now().Before(deadline) && b.Met.Disconnected() == d0 {
+		time.Sleep(time.Millisecond)
+	}
+	publish()
+	if !publisherDone() {
+		obs.Err = "bulk: the publisher was not acknowledged"
+		return obs
+	}
+	time.Sleep(300 * time.Millisecond) // the routing worker drains its channel into persistence
+	sc2, err := connectS()
+	if err != nil {
+		obs.Err = "S: reconnect: " + err.Error()
+		return obs
+	}
+	_, obs.Got = consume(sc2, n, -1)
+	return obs
+}
+
+func tailInts(l []int, k int) []int {
+	if len(l) > k {
+		return l[len(l)-k:]
+	}
+	return l
+}
+
 func (p *c03Prop) Run(ci interface{}) interface{} {
 	c := ci.(*c03Case)
+	if c.Wrap > 0 || c.Bulk > 0 {
+		return p.runLong(c)
+	}
 	obs := &c03Obs{}
 	var gate *persistGate
 	bo := BrokerOpts{}
@@ -566,11 +726,31 @@ func (p *c03Prop) Coq(ci interface{}, oi interface{}) string {
 	if !c.V5 {
 		rm = 65535
 	}
-	return fmt.Sprintf("(mkCase %d%%Z false %s %s)", rm, cList(steps), cBool(o.Err == ""))
+	extra := "None"
+	if c.Wrap > 0 {
+		it := make([]string, len(o.Items))
+		for i, x := range o.Items {
+			if x[1] < 0 {
+				it[i] = fmt.Sprintf("WStuck %d", x[0])
+			} else {
+				it[i] = fmt.Sprintf("WRun %d %d", x[0], x[1])
+			}
+		}
+		extra = fmt.Sprintf("(Some (XWrap %s))", cList(it))
+	} else if c.Bulk > 0 {
+		extra = fmt.Sprintf("(Some (XBulk %d%%Z %d%%Z))", c.Bulk, o.Got)
+	}
+	return fmt.Sprintf("(mkCase %d%%Z false %s %s %s)", rm, cList(steps), cBool(o.Err == ""), extra)
 }
 
 func (p *c03Prop) Class(ci interface{}, oi interface{}) (string, bool) {
 	c := ci.(*c03Case)
+	if c.Wrap > 0 {
+		return "wrap-around-with-stuck-id", true
+	}
+	if c.Bulk > 0 {
+		return "bulk-offline-backlog", true
+	}
 	rec, exp, late := false, false, false
 	for _, op := range c.Ops {
 		if op.Op == "open" || op.Op == "late" {
